@@ -136,21 +136,23 @@ package soyhtml
 //@ func directiveInsertWordBreaks
 //@   like renderFn
 //@   props C03 C16 C08 C09
-//@   nosafety
+//@   nosafety nil nilcall assert nilmap
+//@   requires[arity-checked-by-the-caller] len(args) >= 1 && typeis(args[0], data.Int)
 //@   ghost vs string = ""
+//@   ghost sz int = 0
 //@   ghost esc string = ""
-//@   ghost breaks int = 0
 //@   at call data.Value.String#0 after set vs = res
-//@   at call template.HTMLEscapeString#0 assert[escapes-the-value] arg0 == vs
+//@   at call utf8.DecodeRuneInString#0 assert[the-next-character-of-the-value;C03,C16] substr(arg0, vs, i) && len(arg0) == len(vs) - i
+//@   at call utf8.DecodeRuneInString#0 after set sz = res1
+//@   at call template.HTMLEscapeString#0 assert[each-character-is-escaped-as-a-whole;C03,C16] substr(arg0, vs, i) && len(arg0) == sz
 //@   at call template.HTMLEscapeString#0 after set esc = res
-//@   at call (*bytes.Buffer).WriteString#0 set breaks = breaks + 1
-//@   at call (*bytes.Buffer).WriteString#0 assert[only-the-break-tag-is-added;C03,C16] arg1 == "<wbr>"
-//@   at call bytes.NewBufferString#0 assert[output-starts-as-a-prefix-of-the-escaped-text;C03,C16] substr(arg0, esc, 0)
-//@   at call template.HTMLEscapeString#* assert[only-the-whole-value-is-escaped-once;C03,C16] arg0 == vs
-//@   ensures[no-raw-data] breaks == 0 ==> typeis(result, data.String) && unbox(result, data.String) == esc
+//@   at call (*bytes.Buffer).WriteString#0 assert[only-escaped-characters-are-written;C03,C16] same(arg1, esc)
+//@   at call (*bytes.Buffer).WriteString#1 assert[only-the-break-tag-is-added;C03,C16] arg1 == "<wbr>"
+//@   at call template.HTMLEscapeString#* assert[nothing-else-is-escaped;C03,C16] len(arg0) == sz
+//@   ensures[a-string] typeis(result, data.String)
 //@   loop 0
-//@     invariant breaks >= 0 && (isnil(output) == (breaks == 0))
-
+//@     invariant 0 <= i && i <= len(vs) && substr(input, vs, 0) && len(input) == len(vs)
+//@     decreases len(vs) - i
 // ---------------------------------------------------------------------------
 //@ pred isnum(v data.Value) = typeis(v, data.Int) || typeis(v, data.Float)
 //@ pred numval(v data.Value) = ite(typeis(v, data.Int), float64(unbox(v, data.Int)), unbox(v, data.Float))
